@@ -456,6 +456,79 @@ def _alias_chunk(params, lo, hi):
     return r
 
 
+def planted_3sat(nvars, nclauses, seed):
+    """deterministic 3-SAT with a planted model (variable v is true iff v % 3 != 0): every clause has a satisfied literal"""
+    x = seed * 2654435761 % 2**32
+    out = []
+    while len(out) < nclauses:
+        vs = []
+        while len(vs) < 3:
+            x = (1103515245 * x + 12345) % 2**31
+            v = 1 + x % nvars
+            if v not in vs:
+                vs.append(v)
+        x = (1103515245 * x + 12345) % 2**31
+        signs = [(x >> k) & 1 for k in range(3)]
+        cl = [v if sg else -v for v, sg in zip(vs, signs)]
+        if any((l > 0) == (abs(l) % 3 != 0) for l in cl):
+            out.append(cl)
+    return out
+
+
+def large_cases():
+    """(name, clauses, config, expected number of models or None): formulas with 20 to 300 variables whose verdict is
+    known by construction"""
+    out = []
+    for n in (70, 300):
+        chain = [[1]] + [[-i, i + 1] for i in range(1, n)]
+        out.append((f"implication_chain_{n}", chain, dict(solution_limit=5), 1))
+        out.append((f"implication_chain_{n}_reversed_list", list(reversed(chain)), dict(solution_limit=5, luby_factor=1), 1))
+        out.append((f"implication_chain_{n}_assume_last_false", chain, dict(assumptions=[-n]), 0))
+    n = 12
+    eo = [list(range(1, n + 1))] + [[-i, -j] for i in range(1, n + 1) for j in range(i + 1, n + 1)]
+    out.append(("exactly_one_of_12", eo, dict(solution_limit=100), 12))
+    out.append(("exactly_one_of_12_restarts", eo, dict(solution_limit=100, luby_factor=1), 12))
+    for k in (4, 5):
+        out.append((f"pigeonhole_{k + 1}_into_{k}", php(k + 1, k), dict(luby_factor=2), 0))
+    for nv, nc, sd in ((30, 120, 1), (30, 126, 2), (40, 160, 3), (60, 228, 4), (60, 240, 5)):
+        for lf in (1, 100):
+            out.append((f"planted_3sat_{nv}v_{nc}c_seed{sd}_luby{lf}", planted_3sat(nv, nc, sd), dict(luby_factor=lf), None))
+    return out
+
+
+def _large_chunk(params, lo, hi):
+    pid = params
+    cases = large_cases()
+    r = new_result()
+    for idx in range(lo, hi):
+        name, clauses, cfg, count = cases[idx]
+        cfg = dict(cfg, _guard=MEDIUM)
+        res, verdict, learned, ncalls, tap_on = call(clauses, cfg)
+        vs_ = judge_big(clauses, cfg, res, verdict, learned, ncalls, tap_on)
+        if verdict is None and count is not None:
+            got = len(res.solutions) if res.solutions is not None else (1 if res.solution is not None else 0)
+            if got != min(count, cfg.get("solution_limit", 1)):
+                vs_.append(("C01", "wrong_model_count", f"{got} models returned, the formula has exactly {count}"))
+            if count == 0 and res.status.name != "INFEASIBLE":
+                vs_.append(("C02", "model_for_unsat", f"status {res.status.name} for a formula that is unsatisfiable by construction"))
+            if count and res.status.name == "INFEASIBLE":
+                vs_.append(("C02", "wrong_infeasible", f"INFEASIBLE for a formula with {count} models"))
+        if verdict is None and count is None and res.status.name != "OPTIMAL":
+            vs_.append(("C02", "wrong_infeasible", f"status {res.status.name} for a formula with a planted model"))
+        r["n"] += 1
+        r["nontrivial"] += 1
+        r["outcomes"]["large:" + classify(res, verdict, learned, ncalls)] += 1
+        if learned:
+            r["counters"]["cases_with_learned_clause"] += 1
+        for p, kind, detail in vs_:
+            if p != pid:
+                continue
+            r["violations"].append({"function": "solve_sat", "predicates": [], "kind": kind, "witness": {"large": name}, "detail": f"solve_sat({name}, {cfg}): {detail}"})
+        if not r["samples"]:
+            r["samples"].append({"large": name})
+    return r
+
+
 def _explicit_chunk(params, lo, hi):
     pid, cases = params
     r = new_result()
@@ -590,7 +663,8 @@ def judge_big(clauses, cfg, res, verdict, learned, analyze_calls, tap_on):
         return [("C02", "nontermination", "solve_sat did not return within the fuel budget")]
     if isinstance(verdict, str):
         return [("C02", "raised", verdict)]
-    ref = satref.dpll(clauses)
+    assumed = [[l] for l in (cfg.get("assumptions") or [])]
+    ref = satref.dpll(list(clauses) + assumed)
     returned = []
     if res.solution is not None:
         returned.append(("solution", res.solution))
@@ -622,7 +696,7 @@ def judge_big(clauses, cfg, res, verdict, learned, analyze_calls, tap_on):
         for _, s_ in returned:
             blocking.append([(-v if b else v) for v, b in s_.items()])
         for lc in learned[:60]:
-            if satref.dpll(list(clauses) + blocking, [-l for l in lc]) is not None:
+            if satref.dpll(list(clauses) + blocking, [-l for l in lc]) is not None and not assumed:
                 out.append(("C02", "unimplied_learned_clause", f"learned clause {lc} is not entailed by the formula (blocked models excepted)"))
                 break
     return out
@@ -719,6 +793,7 @@ def make_jobs(pid, tier, seed):
         )
     )
     sp = special_cases()
+    jobs.append(Job("large_by_construction", len(large_cases()), _large_chunk, pid, chunk=1, describe="implication chains over 70 and 300 variables, exactly-one of 12, pigeonhole 5->4 and 6->5, 3-SAT with a planted model on 30-60 variables: verdict and model count known by construction"))
     jobs.append(Job("aliased_duplicate_clause", len(formula_list(4, 3, 0, 3, 2)) * 8 * len(ALIAS_CFGS), _alias_chunk, pid, describe="a ternary clause listed twice as one shared list object (and the tuple form) + every set of <=3 clauses of length 2-3 on 4 variables"))
     jobs.append(Job("special_empty", len(sp), _explicit_chunk, (pid, sp), describe="empty formula, empty clause, single units x assumptions"))
     st = structured_cases(tier)
@@ -791,5 +866,10 @@ def _block_chunk(params, lo, hi):
 def replay(pid, v):
     w = v["witness"]
     r = new_result()
+    if w.get("large"):
+        names = [c[0] for c in large_cases()]
+        i = names.index(w["large"])
+        rr = _large_chunk(pid, i, i + 1)
+        return rr["violations"][0] if rr["violations"] else None
     run_case(pid, [tuple(c) for c in w["clauses"]], dict(w["config"]), r, None)
     return r["violations"][0] if r["violations"] else None
